@@ -518,6 +518,12 @@ class Run:
               "assumptions": list(getattr(mod, "ASSUMPTIONS", [])),
               "wall_s": round(time.time() - self.t0, 2),
               "violations": len(self.violations)}
+        if self.n_ob == 0:
+            # nothing could be generated (e.g. every function left the accepted subset):
+            # not a proof-level run
+            ev["level"] = "other"
+            cov["explanation"] = ("no obligation could be generated on this tree: " +
+                                  "; ".join(self.undecided)[:600])
         out = HERE / "evidence" / f"{self.pid}.json"
         out.parent.mkdir(exist_ok=True)
         try:
